@@ -1863,7 +1863,11 @@ class Controller:
 
         retval = experiment.model.codes.restartCodes["RestartCouldNotInitiate"]
         #Sleep for 30 in order to let system stability to return
-        component.controllerState = experiment.model.codes.SUSPENDED_STATE
+        # VV: the component may already have been given its final state (e.g. its stage was stopped while the
+        #     restart was being considered), leave that alone
+        suspended = component.controllerState is None
+        if suspended:
+            component.controllerState = experiment.model.codes.SUSPENDED_STATE
         count = 0
         while count < 4:
             self.log.info("Will wait 30 secs before next stability check")
@@ -1879,7 +1883,9 @@ class Controller:
         self.log.warning("Waited %d seconds (max 120) - will attempt restart of %s" % (
             count*30, component.specification.reference))
 
-        component.controllerState = None
+        # VV: Only undo the suspension, never a final state that the component received while waiting
+        if suspended and component.controllerState == experiment.model.codes.SUSPENDED_STATE:
+            component.controllerState = None
         try:
             retval = component.restart(reason=exitReason, code=returncode)
         except Exception as error:
